@@ -149,6 +149,16 @@ class C19Monitor(Monitor):
                                 self.bad("stage-advanced-after-unsuccessful-action", name, f"kill chain SUCCEEDED at tick {tick} although the previous action (tick {prev_exec}) came back {status!r}", sig_extra=str(status))
                             if s.get("repeat_kill_chain_stages") is False and new.name not in ("FAILED", "NOT_STARTED") and not (s.get("repeat_kill_chain") and int(new) == 1):
                                 self.bad("no-failure-after-unsuccessful-action", name, f"repeat_kill_chain_stages is off, the previous action (tick {prev_exec}) came back {status!r}, yet the stage is {new.name} at tick {tick}", sig_extra=str(status))
+                # a stage whose configured probability is 0 is never passed
+                # (the stages documented as "performs a trial using the given stage probability"; TAP001's DOWNLOAD, INSTALL
+                # and ACTIVATE are documented as having no probability)
+                trialled = {"PROPAGATE", "COMMAND_AND_CONTROL", "PAYLOAD", "PLANNING", "ACCESS", "MANIPULATION", "EXPLOIT"}
+                blocked = [k for k, o in (s.get("kill_chain") or {}).items() if isinstance(o, dict) and o.get("probability") == 0 and k in type(new).__members__ and k in trialled]
+                if blocked:
+                    run.probe("c19_tap_stage_with_probability_zero")
+                    first = min(int(type(new)[k]) for k in blocked)
+                    if new.name == "SUCCEEDED" or (new.name not in TERMINAL and new.name != "NOT_STARTED" and int(new) > first):
+                        self.bad("stage-with-probability-zero-passed", name, f"stage {type(new)(first).name} has probability 0, yet the agent is at {new.name} (tick {tick})", sig_extra=type(new)(first).name)
                 if old is not None and new != old:
                     run.probe("c19_kill_chain_stage_changed")
                     on, nn = old.name, new.name
